@@ -304,7 +304,7 @@ func genC11(g *Gen) {
 	// call at a time, read again - the column of a long line is reported exactly however it is kept
 	widths := []int{65536, 70000}
 	if g.Thorough() {
-		widths = g.WithRandomSizes([]int{65534, 65535, 65536, 65537, 70000}, 2, 65000, 140000)
+		widths = g.WithRandomSizes([]int{65535, 65536, 65537, 70000}, 1, 65000, 140000)
 	}
 	for _, width := range widths {
 		for _, br := range []string{"\n", "\r\n", "\r", "\n\r"} {
